@@ -1,7 +1,7 @@
 (* Html/Proofs.v — the C09 / C01 / C02 theorems about the HTML lexer model, derived from the one-call
    specification next_spec (Html/Step.v). *)
 From Verif Require Import Common.Base Common.Tactics Common.Lx Gen.Tables Html.Model Html.Lemmas Html.ListLemmas
-     Html.Hash Html.Safety Html.Step Html.Spec.
+     Html.Hash Html.Safety Html.Step Html.Spec Html.RawText.
 From Coq Require Import ZifyBool.
 
 (* ---- the invariant relative to the original input d ---------------------------------------------------- *)
@@ -426,3 +426,74 @@ Proof.
   split; [region_witness|]. split; [region_witness|]. split; [region_witness|].
   split; [region_witness|]. split; [region_witness|region_witness].
 Qed.
+
+(* ---- C09: the content of a raw-text element is never tokenised as markup ------------------------------------------ *)
+Lemma safe_eq {A} (e : res A) (P : A -> Prop) a : safe e P -> e = Ok a -> P a.
+Proof. intros H ->. exact H. Qed.
+
+Lemma html_rawtext_proof : forall c d l ty tk l', cfg_ok c -> html_inv d l -> intag l = false -> rawtag l <> 0 ->
+  next c l = Ok (ty, tk, l') ->
+  exists e, lpos (lz l) <= e <= len d /\
+    (lpos (lz l) < e ->
+       ty = TextT /\ tk = Some (mkSl (lpos (lz l)) (e - lpos (lz l))) /\ ltext l' = tk /\
+       rawtag l' = 0 /\ intag l' = false /\ lpos (lz l') = e) /\
+    (e = len d \/ (rawtag l <> html_hash_Plaintext /\ end_tag_at (rawtag l) (d ++ [0]) e)) /\
+    (has_delims c = false -> rawtag l <> html_hash_Script -> rawtag l <> html_hash_Plaintext ->
+       forall p, lpos (lz l) <= p < e -> ~ end_tag_at (rawtag l) (d ++ [0]) p).
+Proof.
+  intros c d l ty tk l' Hc Hi Hit Hraw Hn. pose proof Hi as (Hl & Hlen & Hsuf & _). pose proof Hl as [Hw _].
+  pose proof (lwf_clean l Hl Hit) as Hcl.
+  assert (H0 : 0 <= lpos (lz l)) by (destruct Hw as (_ & ? & _); lia).
+  unfold next in Hn. cbn [lz rawtag intag lerr ltext lattr lhas] in Hn. rewrite Hit in Hn.
+  replace (negb (rawtag l =? 0)) with true in Hn by (symmetry; apply negb_true_iff; apply Z.eqb_neq; exact Hraw).
+  assert (Hsuf2 : forall i, lpos (lz l) <= i -> peekz (lbuf (lz l)) i = peekz (d ++ [0]) i) by exact Hsuf.
+  unfold shift_rawtext in Hn.
+  destruct (rawtag l =? html_hash_Plaintext) eqn:Epl.
+  - (* plaintext: everything up to the end of input *)
+    destruct (safe_inv _ _ (plaintext_loop_spec _ Hw)) as (zp & Ez & Ha). rewrite Ez in Hn. cbn [rbind] in Hn.
+    pose proof (plaintext_loop_run _ _ _ Ez) as Hend. apply at_end_true in Hend; [|eauto using adv_wf].
+    rewrite (adv_len _ _ Ha), Hlen in Hend.
+    rewrite shiftv_spec in Hn by eauto using adv_wf. cbn [rbind fst snd] in Hn.
+    destruct Ha as (A1 & A2 & A3).
+    exists (len d). split; [lia|]. split; [|split; [left; reflexivity|intros _ _ Hp; b2p; congruence]].
+    intros Hlt. cbn [sn] in Hn. replace (0 <? lpos zp - lstart zp) with true in Hn by (symmetry; apply Z.ltb_lt; lia).
+    injection Hn as <- <- <-. cbn [ltext rawtag intag lz skip lpos]. rewrite A2, Hcl, Hend. tauto.
+  - destruct (safe_inv _ _ (rawtext_loop_spec c (rawtag l) (lz l) false Hc Hw)) as (s & Es & Ha). rewrite Es in Hn. cbn [rbind] in Hn.
+    destruct (rawtext_loop_run _ _ _ _ _ _ Es) as (_ & _ & Hend & Hnm).
+    rewrite shiftv_spec in Hn by eauto using adv_wf. cbn [rbind fst snd] in Hn.
+    pose proof Ha as (A1 & A2 & A3). rewrite Hlen in A3.
+    exists (lpos (fst s)). split; [lia|]. split; [|split].
+    + intros Hlt. cbn [sn] in Hn. replace (0 <? lpos (fst s) - lstart (fst s)) with true in Hn by (symmetry; apply Z.ltb_lt; lia).
+      injection Hn as <- <- <-. cbn [ltext rawtag intag lz skip lpos]. rewrite A2, Hcl. tauto.
+    + destruct Hend as [Hend|Hend].
+      * left. apply at_end_true in Hend; [|eauto using adv_wf]. rewrite (adv_len _ _ Ha), Hlen in Hend. exact Hend.
+      * right. split; [b2p; assumption|]. eapply (end_tag_at_ext _ _ _ (lpos (lz l))); eauto. lia.
+    + intros Hd Hs _ p Hp Hm. apply (Hnm Hd Hs p Hp).
+      eapply (end_tag_at_ext _ _ _ (lpos (lz l))); [|lia|exact H0|exact Hm]. intros i Hge. symmetry. apply Hsuf2. exact Hge.
+Qed.
+
+Example html_rawtext_nonvacuous :
+  (* "<script>a</scriptx></SCRIPT >": the text after the tag is "a</scriptx>" up to offset 19 *)
+  let d := [60;115;99;114;105;112;116;62;97;60;47;115;99;114;105;112;116;120;62;60;47;83;67;82;73;80;84;32;62] in
+  exists tr, run no_tmpl 3 (new_lexer d) = Ok tr /\
+    map (fun r => (fst (fst r), snd (fst r))) tr = [(StartTagT, Some (mkSl 0 7)); (StartTagCloseT, Some (mkSl 7 1)); (TextT, Some (mkSl 8 11))].
+Proof. eexists. split; [vm_compute; reflexivity|reflexivity]. Qed.
+
+(* ---- further clauses of the property text that are false on the current code (found while modelling) ------------ *)
+(* "<title>a</title-x>b</title>": the raw text ends at "</title-x>", an end tag whose own Text() is "title-x" *)
+Lemma html_rawtext_endtag_prefix_refuted_proof :
+  let d := [60;116;105;116;108;101;62;97;60;47;116;105;116;108;101;45;120;62;98;60;47;116;105;116;108;101;62] in
+  exists tr, run no_tmpl 4 (new_lexer d) = Ok tr /\
+    map (fun r => (fst (fst r), snd (fst r))) tr =
+      [(StartTagT, Some (mkSl 0 6)); (StartTagCloseT, Some (mkSl 6 1)); (TextT, Some (mkSl 7 1)); (EndTagT, Some (mkSl 8 10))] /\
+    (exists r, nth_error tr 3 = Some r /\
+       match ltext (snd r) with Some t => view_bytes (lbuf (lz (snd r))) t = [116;105;116;108;101;45;120] | None => False end).
+Proof.
+  eexists. split; [vm_compute; reflexivity|]. split; [reflexivity|]. eexists. split; [reflexivity|]. vm_compute. reflexivity.
+Qed.
+
+(* <svg><text>5(double quote) pipe</text></svg><p> : one SVG token up to the end of input, the closing svg tag and the p tag included *)
+Lemma html_svg_quote_refuted_proof :
+  let d := [60;115;118;103;62;60;116;101;120;116;62;53;34;32;112;105;112;101;60;47;116;101;120;116;62;60;47;115;118;103;62;60;112;62] in
+  exists l', next no_tmpl (new_lexer d) = Ok (SvgT, Some (mkSl 0 (len d)), l') /\ len d = 34.
+Proof. eexists. split; vm_compute; reflexivity. Qed.
